@@ -400,7 +400,14 @@ mod inner {
         }
 
         pub fn push(&mut self, value: f64) {
-            self.inner.push(value);
+            // Same as the compact implementation: everything that is not a
+            // positive value counts as zero so that both implementations
+            // produce the same results.
+            if value.to_bits() > 0 && value.is_sign_positive() {
+                self.inner.push(value);
+            } else {
+                self.inner.push(0.0);
+            }
         }
 
         pub fn sort_desc(&mut self) {
